@@ -51,7 +51,7 @@ def q_insert_entry(bodies):
     body = hits[0]
     ov = dict(origin)
     evd = dict(event)
-    if [v for v, _ in origin] != ["Local", "Sync"] or ov["Sync"] != ["from", "remote_content_status"] or sorted(v for v, _ in outcome) != ["Inserted", "NotInserted"] or dict(outcome)["Inserted"] != ["removed"] \
+    if [v for v, _ in origin] != ["Local", "Sync"] or ov["Sync"] != ["from", "remote_content_status"] or not {"Inserted", "NotInserted"} <= set(v for v, _ in outcome) or dict(outcome)["Inserted"] != ["removed"] or any(f for v, f in outcome if v != "Inserted") \
             or evd.get("LocalInsert") != ["namespace", "entry"] or evd.get("RemoteInsert") != ["namespace", "entry", "from", "should_download", "remote_content_status"]:
         return dict(name=name, property="C12", properties=props, verdict="inconclusive", detail="enum layouts changed: %s %s %s" % (origin, outcome, event), functions=[body.name])
     enums = {"InsertOrigin": ["Local", "Sync"], "InsertOutcome": [v for v, _ in outcome], "Event": [v for v, _ in event], "Poll": ["Ready", "Pending"]}
@@ -78,8 +78,18 @@ def q_insert_entry(bodies):
 
         def m_put(ex, v, env):
             env["__puts"] = env.get("__puts", ()) + ((v[0], v[1]),)
-            return [("(and put_ok inserted)", "(C_Ok (CE_InsertOutcome_Inserted REMOVED))"), ("(and put_ok (not inserted))", "(C_Ok CE_InsertOutcome_NotInserted)"),
-                    ("(not put_ok)", "(C_Err SERR)")]
+            # every variant other than `Inserted` (NotInserted, and any field-less variant added later) means "not stored"
+            others = [vn for vn, _ in outcome if vn != "Inserted"]
+            forks = [("(and put_ok inserted)", "(C_Ok (CE_InsertOutcome_Inserted REMOVED))"), ("(not put_ok)", "(C_Err SERR)")]
+            for k, vn in enumerate(others):
+                ex.smt.fun("CE_InsertOutcome_%s" % vn, 0)
+                if len(others) == 1:
+                    forks.append(("(and put_ok (not inserted))", "(C_Ok CE_InsertOutcome_%s)" % vn))
+                else:
+                    if "(declare-const which_%d Bool)" % k not in ex.smt.decls:
+                        ex.smt.decls.append("(declare-const which_%d Bool)" % k)
+                    forks.append(("(and put_ok (not inserted) which_%d)" % k, "(C_Ok CE_InsertOutcome_%s)" % vn))
+            return forks
         m_put.wants_env = True
 
         def m_branch(ex, v):
@@ -231,7 +241,7 @@ def q_insert_entry(bodies):
                 continue
             pc_s = " ".join(pc)
             got_inserted = "(and put_ok inserted)" in pc
-            got_not = "(and put_ok (not inserted))" in pc
+            got_not = any(c.startswith("(and put_ok (not inserted)") for c in pc)
             got_err = "(not put_ok)" in pc
             if got_err:
                 if sent or not (ret.startswith("(CE_Poll_Ready (C_Err ") and "SERR" in ret):
